@@ -126,13 +126,18 @@ def make_symmetry(fn, n):
                 tag = '%s.(%s)' % (pname, ','.join(key))
                 if base is None:
                     base = sig
+                    base_unknown = it.unknown_feasibility
                     ctx.record(tag, PROVED if sig else ERROR, 'B', 0, 'reference arrangement: %d feasible paths' % len(sig))
+                    continue
+                if len(sig) != len(base) and (it.unknown_feasibility or base_unknown):
+                    ctx.record(tag, UNDECIDED, 'B', 0, 'the solver left the feasibility of %d branch(es) undecided (timeout); path sets not comparable' % (it.unknown_feasibility + base_unknown))
                     continue
                 if len(sig) != len(base):
                     ctx.record(tag, FAILED, 'B', 0, 'different number of feasible paths (%d vs %d for the reference arrangement)' % (len(sig), len(base)),
                                model={'_arrangement': key, '_pattern': pname})
                     continue
                 bad = None
+                undecided = None
                 for k, ((pc1, r1, e1), (pc2, r2, e2)) in enumerate(zip(base, sig)):
                     if (e1 is None) != (e2 is None) or (r1 is None) != (r2 is None):
                         bad = 'path %d: exception/return mismatch' % k
@@ -150,9 +155,19 @@ def make_symmetry(fn, n):
                     s_.set('timeout', 5000)
                     s_.add(*pre)
                     s_.add(c1 != c2)
-                    if s_.check() != z3.unsat:
+                    rr = s_.check()
+                    if rr == z3.unknown:
+                        s_.set('timeout', 60000)
+                        rr = s_.check()
+                    if rr == z3.unknown:
+                        undecided = 'path %d: equivalence of the path conditions not decided within 60 s' % k
+                        break
+                    if rr != z3.unsat:
                         bad = 'path %d: path conditions differ' % k
                         break
+                if not bad and undecided:
+                    ctx.record(tag, UNDECIDED, 'B', 0, undecided)
+                    continue
                 ctx.record(tag, FAILED if bad else PROVED, 'B', 0, bad or '%d paths coincide with the reference arrangement' % len(sig),
                            model={'_arrangement': key, '_pattern': pname} if bad else None)
     return ob
